@@ -801,6 +801,38 @@ def mfr_history(chk, program, consts, sf, cf, P, ID):
             chk.check(want == got, 'MFR-GUARD', f"history::{mode}=garmin::{name}", file=DEC, line=fn.lineno, func='_decode', expected='returned' if want else 'withheld',
                       found='returned' if got else 'withheld', detail='' if want == got else 'the manufacturer filter does not follow the latest claim of the address')
 
+def _isoname_device_instance(program, d, lower_field):
+    """IsoName.__init__ interpreted (absint) on claims whose deviceInstanceUpper / deviceInstanceLower are concrete: -> list of mismatches, None when
+    not interpretable"""
+    from . import absint as A
+    init = program.fn('message', 'IsoName.__init__')
+    cls = program.cls('message', 'NMEA2000Message')
+    methods = {n.name: n for n in cls.body if isinstance(n, ast.FunctionDef)}
+    bad = []
+    try:
+        for up, lo in ((0b10101, 0b011), (1, 0), (0, 5), (31, 7)):
+            fl = []
+            for f_ in d.fields:
+                val = {'deviceInstanceUpper': up, 'deviceInstanceLower': lo}.get(f_.dbid, 1)
+                v_ = A.AInt(val) if f_.type in ('NUMBER', 'MMSI') or f_.dbid in ('deviceInstanceUpper', 'deviceInstanceLower') else A.AStr([('lit', f"{f_.dbid}#1")])
+                fl.append(A.AObj(id=A.AStr([('lit', f_.dbid)]), value=v_, raw_value=A.AInt(val)))
+            msg = A.AObj(PGN=A.AInt(d.pgn), id=A.AStr([('lit', d.id)]), fields=A.AList(fl))
+            def hook(it, call, env, msg=msg):
+                f = call.func
+                if isinstance(f, ast.Attribute) and isinstance(f.value, ast.Name) and env.get(f.value.id) is msg and f.attr in methods:
+                    return it.call_function(methods[f.attr], [msg] + [it.expr(a, env) for a in call.args], {k.arg: it.expr(k.value, env) for k in call.keywords})
+                return NotImplemented
+            from .wire import is_logger
+            o = A.AObj()
+            A.Interp(hook=hook, skip=is_logger, methods=methods, module=A.ModuleEnv(program.mod('message').tree)).call_function(init, [o, msg, A.AInt(12345)])
+            got = o.attrs.get('device_instance')
+            want = (up << lower_field.bit_length) | lo
+            if not (isinstance(got, A.AInt) and got.v == want):
+                bad.append(f"upper={up}, lower={lo}: expected {want}, got {got!r}")
+    except (A.Unknown, A.RaiseSignal, AttributeError, TypeError, KeyError):
+        return None
+    return bad
+
 def isoname_ids(chk, program):
     consts = F.module_consts(program)
     db = program.db
@@ -859,6 +891,15 @@ def isoname_ids(chk, program):
                         up, sh = hi[2], hi[3][1].bit_length() - 1
                     if sh is not None and up[0] == 'call' and lo[0] == 'call' and fid_of(up) == 'deviceInstanceUpper' and fid_of(lo) == 'deviceInstanceLower' and lf is not None and sh == lf.bit_length:
                         ok = True
+            if not ok:
+                # another spelling: decided by interpreting the constructor on stand-in claims whose two instance fields are concrete
+                sem_ = _isoname_device_instance(program, d, lf)
+                if sem_ is None:
+                    chk.unknown('ISONAME-IDS', 'IsoName.device_instance::composition', f"not of the recognised spelling and the constructor was not interpretable: {show(v)[:100]}", M, line)
+                    continue
+                chk.check(not sem_, 'ISONAME-IDS', 'IsoName.device_instance::composition', file=M, line=line, func='IsoName.__init__',
+                          expected='(deviceInstanceUpper << BitLength(deviceInstanceLower)) | deviceInstanceLower', found='ok (constructor interpreted)' if not sem_ else sem_[:3])
+                continue
             chk.check(ok, 'ISONAME-IDS', 'IsoName.device_instance::composition', file=M, line=line, func='IsoName.__init__',
                       expected='(deviceInstanceUpper << BitLength(deviceInstanceLower)) | deviceInstanceLower', found=show(v)[:120])
         if attr == 'arbitrary_address_capable':
